@@ -3,21 +3,21 @@ module verifharness
 go 1.26.3
 
 require (
+	github.com/fxamacker/cbor/v2 v2.9.2
 	github.com/miekg/dns v1.1.72
+	github.com/mycoria/crop v0.3.1
 	github.com/mycoria/mycoria v0.0.0
 	golang.org/x/crypto v0.54.0
 	golang.org/x/net v0.57.0
 )
 
 require (
-	github.com/fxamacker/cbor/v2 v2.9.2 // indirect
 	github.com/google/btree v1.1.3 // indirect
 	github.com/klauspost/cpuid/v2 v2.4.0 // indirect
 	github.com/mdlayher/ndp v1.1.0 // indirect
 	github.com/mitchellh/copystructure v1.2.0 // indirect
 	github.com/mitchellh/reflectwalk v1.0.2 // indirect
 	github.com/mr-tron/base58 v1.3.0 // indirect
-	github.com/mycoria/crop v0.3.1 // indirect
 	github.com/tevino/abool v1.2.0 // indirect
 	github.com/vishvananda/netlink v1.3.1 // indirect
 	github.com/vishvananda/netns v0.0.5 // indirect
